@@ -44,6 +44,14 @@ impl SparseMatrix {
         SparseMatrix { rows, cols }
     }
 
+    /// Verification hook: builds a matrix directly from its row and column
+    /// lists (the caller is responsible for their consistency).
+    #[cfg(feature = "verif-hooks")]
+    #[doc(hidden)]
+    pub fn verif_from_lists(rows: Vec<Vec<usize>>, cols: Vec<Vec<usize>>) -> SparseMatrix {
+        SparseMatrix { rows, cols }
+    }
+
     /// Returns the number of rows of the matrix
     pub fn num_rows(&self) -> usize {
         self.rows.len()
